@@ -395,6 +395,31 @@ def c05_sametext(tier, rnd):
     return progs, ["x", "len"]
 
 
+def c05_multiname(tier, rnd):
+    """definitions of several names at once -- tal:define="(x, y) expr", local and global: every name gets ITS item, here,
+    after a same-named local ended, and (for globals) after a macro or a slot filler returned"""
+    progs = []
+    pr = lambda: Text("p", pipe(var("x"), const(S("u0"))), ",", pipe(var("y"), const(S("u0"))), ";")   # noqa: E731
+    vals = [SEQ([S("a"), S("b")]), SEQ([S("a")]), NONE] if tier == "quick" else [SEQ([S("a"), S("b")]), SEQ([S("a")]), SEQ([S("a"), S("b"), S("c")]), NONE, S("h"), I(7)]
+    for g in (False, True):
+        for bound in (False, True):
+            init = {"x": S("c"), "y": S("p")} if bound else {}
+            al = Alloc(tier)
+            items = [pr(), Open(define=[(g, ("x", "y"), al.call("define", vals))], sattr=[]), pr(), CLOSE, pr()]
+            progs.append(program(items, al.dom, init=init, fam="C05.multi:%s:%s" % ("G" if g else "L", bound)))
+            # the global definition inside an element that binds the same names locally: visible again when the local ends
+            al = Alloc(tier)
+            items = [pr(), Open(define=[(False, "x", const(S("c"))), (False, "y", const(S("p")))], sattr=[]), pr(),
+                     Open(define=[(g, ("x", "y"), al.call("define", vals[:1]))], sattr=[]), pr(), CLOSE, pr(), CLOSE, pr()]
+            progs.append(program(items, al.dom, init=init, fam="C05.multi-under-local:%s:%s" % ("G" if g else "L", bound)))
+    base = list(progs)
+    for p in base:
+        if ":G:" in p["fam"]:
+            for how in ("macro", "filler"):
+                progs.append(in_context(p, how))
+    return progs
+
+
 def c05_siblings(tier, rnd):
     """a defining element followed by a sibling that reads the name in an
     expression (text probe): shadowing a builtin or helper name is local"""
